@@ -222,6 +222,21 @@ CHECKS["C10"] = dict(
          "TLA+); J of real simulation output (only structurally on exact inputs). Termination relies on a wall-clock "
          "guard per run.")
 
+CHECKS["C11"] = dict(
+    category="model_checking", design_ref="DESIGN.md section 2 (C11)",
+    technique="history machine of the objective in TLA+ (mode, collected training data); TLC enumerates all histories "
+              "up to a length and checks the data is a function of the raw evaluations since the last initialize; every "
+              "maximal history is executed on real objectives and validated step by step",
+    text="FoM.tla/MC_FoM: over initialize/set_raw/set_model/get_differentials/evaluate(x) the collected data changes "
+         "only in raw evaluations and initialize. All TLC histories of the generator length, random long histories and "
+         "bundled system/controller pairs run on FigureOfMerit and FigureOfMeritLE; Trace_FoM demands: each value "
+         "bit-equal to a fresh objective's value for (x, mode), in [0,1e100] or = 1e200, 1e200 exactly when a training "
+         "case is invalid, between min and max of the per-case merits the driver computes from run_ode + j_from_ode "
+         "with the documented state_dims_in_j/gamma (slack in ulps), and the row counts of both collected lists equal "
+         "the machine's expectation after every action.",
+    note="The float mean / log-exp mean itself is only bracketed (TLA+ has no float arithmetic). The surrogate "
+         "optimizer's protocol is not traced yet. Private collection lists are read via name-mangled attributes.")
+
 NOT_YET = {
 }
 
